@@ -12,7 +12,8 @@ from ..gen import soup
 ID = "C20"
 RULE = ("inputs: golden-corpus items (valid and invalid), near-miss mutations, programs with @warn/@debug/@error and "
         "@import/@use through load paths, x all 2^5 combinations of {--style compressed, --no-charset, --quiet, --no-unicode, "
-        "-I dirs} x {file argument (.scss/.sass/.css), --stdin} x {stdout, output file}; plus I/O faults (missing file, "
+        "-I dirs} x {file argument (.scss/.sass/.css), --stdin} x {stdout, output file (fresh, or already existing with longer "
+        "stale content)}; plus I/O faults (missing file, "
         "directory as input, non-UTF-8 file, non-UTF-8 stdin, unwritable output). non-trivial = input non-empty and the "
         "library returned Ok or Err; distinct = distinct (input, flags, modes).")
 ASSUMPTIONS = ["the library oracle runs with StdFs/StdLogger in the same working directory through the worker",
@@ -116,8 +117,15 @@ def one_case(sh, w, cli, d, text, syntax, flags, use_stdin, to_file, fault):
     with open(os.path.join(d, inp), "wb") as f:
         f.write(data)
     outp = "out.css" if to_file else None
-    if outp and os.path.exists(os.path.join(d, outp)):
-        os.remove(os.path.join(d, outp))
+    if outp:
+        # a user re-runs the compiler over the output of the previous run: half of the cases start with an existing,
+        # longer output file (stale bytes must not survive), the other half with none
+        if sh.rng.chance(0.5):
+            with open(os.path.join(d, outp), "wb") as f:
+                f.write(b"/* stale output of an earlier run */\n" + b".stale { y: z; }\n" * sh.rng.range(1, 400))
+            sh.count("output_file_preexisting")
+        elif os.path.exists(os.path.join(d, outp)):
+            os.remove(os.path.join(d, outp))
     stdin_data = data if use_stdin else None
     fault_name = None
     if fault is not None:
